@@ -54,6 +54,14 @@ Definition reported_once_at (fs : list firing) (c k : N) : Prop :=
 Definition known_gap (w s : N) (evs : list (N * N)) (c : N) : bool :=
   (w <? s) && forallb (fun e => negb ((c <=? snd e + w) && (snd e <=? c))) evs.
 
+(* the three clauses of the property, for an arbitrary list of firings fs observed on the stream evs *)
+Definition spec_holds (w s : N) (evs : list (N * N)) (fs : list firing) : Prop :=
+  (forall f, In f fs -> firing_ok w s evs f) /\
+  StronglySorted firing_lt fs /\
+  (forall pre x t post c, evs = pre ++ (x, t) :: post ->
+     prev_ts pre < t -> t <= prev_ts pre + s -> N.divide s c -> prev_ts pre < c -> c <= t ->
+     known_gap w s evs c = false -> reported_once_at fs c (N.of_nat (length pre))).
+
 (* ---------------------------------------------------------------------------------------------- *)
 (* Executable checker of the three clauses on an arbitrary list of firings (used by the check on the
    implementation's output).  Returns the list of violated clauses:
